@@ -162,9 +162,14 @@ def analyse(rep, prop, v, ops, order=2, margin=3):
                 f = f_rminus if op == "rminus" else f_lminus
                 Ja, Jav = Jout()
                 Jb, Jbv = Jout()
-                r0 = call(f, X, [Y, Jav, Jbv], op + "(J,J)")
-                dX = vdiff(call(f, Xd, [Y, None, None], op), r0)
-                dY = vdiff(call(f, X, [Yd, None, None], op), r0)
+                # any pair (X, Y) near the identity is (Y exp(e x), Y) resp. (exp(e x) Y, Y): parametrise it so that the
+                # logarithm inside the operation is taken of exp(e x) (one radicand |x_ang|^2 instead of a quadratic form in (x, s))
+                X_, Y_ = (gcmp(Y, X), Y) if op == "rminus" else (gcmp(X, Y), Y)
+                Xd_ = gcmp(X_, D)
+                r0 = call(f, X_, [Y_, Jav, Jbv], op + "(J,J)")
+                dX = vdiff(call(f, Xd_, [Y_, None, None], op), r0)
+                dY = vdiff(call(f, X_, [Yd, None, None], op), r0)
+                X, X_keep = X_, X
                 check(op, "X", Ja, dX, ds, f)
                 check(op, "Y", Jb, dY, ds, f)
                 Ja1, Jav1 = Jout()
@@ -173,6 +178,7 @@ def analyse(rep, prop, v, ops, order=2, margin=3):
                 Jb1, Jbv1 = Jout()
                 call(f, X, [Y, None, Jbv1], op + "(_,J)")
                 check(op + "[only J_Y]", "Y", Jb1, dY, ds, f)
+                X = X_keep
             elif op == "between":
                 Ja, Jav = Jout()
                 Jb, Jbv = Jout()
@@ -206,8 +212,10 @@ def analyse(rep, prop, v, ops, order=2, margin=3):
     return n_obl
 
 
-QUICK = [(v, op, 2, 3) for v in ("SO2", "SE2") for op in OPS] + [("SO3", op, 2, 3) for op in ("inverse", "compose", "between", "act")]
-THOROUGH_EXTRA = [("SO3", "rplus", 2, 7), ("SO3", "lplus", 2, 7), ("SE3", "inverse", 2, 3), ("SE3", "between", 2, 3), ("SE3", "act", 2, 3)]
+QUICK = [(v, op, 2, 6) for v in ("SO2", "SE2") for op in OPS] + \
+        [("SO3", op, 2, 3) for op in ("inverse", "compose", "between", "act")] + [("SO3", op, 2, 6) for op in ("exp", "log", "rminus")]
+THOROUGH_EXTRA = [("SO3", "rplus", 2, 7), ("SO3", "lplus", 2, 7), ("SO3", "lminus", 2, 6),
+                  ("SE3", "inverse", 2, 3), ("SE3", "between", 2, 3), ("SE3", "act", 2, 3)]
 
 
 class _Collector:
